@@ -32,6 +32,9 @@ THEOREMS = [
     "PorepyVerif.C35.replaceRows_spec",
     "PorepyVerif.C35.from_sparse_blocks_eq_block_diag",
     "PorepyVerif.C35.from_sparse_blocks_empty",
+    "PorepyVerif.C35.from_dense_blocks_eq_block_diag",
+    "PorepyVerif.C35.from_dense_blocks_size_error",
+    "PorepyVerif.C35.block_diag_matrix_eq_block_diag",
     "PorepyVerif.C35.kron_identity_dense",
     "PorepyVerif.C35.expand_indices_nd_eq",
     "PorepyVerif.C35.expand_indices_add_increment_eq",
